@@ -104,6 +104,7 @@ pub proof fn lemma_sum_seq_set<A>(ks: Seq<A>, s: Set<A>, w: spec_fn(A) -> nat)
         if ks.len() > 0 { assert(s.contains(ks[0])); }
     } else {
         let x = s.choose();
+        vstd::set::lemma_set_choose_len(s);
         let i = choose|i: int| 0 <= i < ks.len() && #[trigger] ks[i] == x;
         let k2 = ks.remove(i);
         lemma_sum_seq_remove(ks, i, w);
@@ -288,14 +289,14 @@ pub open spec fn cache_ok(cache: Map<CKey, Option<PathBuf>>, defs: Map<Seq<char>
     forall|k: CKey| #[trigger] cache.contains_key(k) ==> opt_pbv(cache[k]) == opt_file(op_resolve(bucket(defs, k.1), k.0, provf(k.1), fs_true()))
 }
 /// `defs.iter().find(|d| d.file_path == p).cloned()`
-pub open spec fn find_post(v: Seq<FixtureDefinition>, p: PV, o: Option<FixtureDefinition>) -> bool {
+pub open spec fn find_post(v: Seq<&FixtureDefinition>, p: PV, o: Option<FixtureDefinition>) -> bool {
     match o {
         Some(d) => pbv(&d.file_path) == p && exists|i: int| 0 <= i < v.len() && pbv(&(#[trigger] v[i]).file_path) == p,
         None => forall|i: int| 0 <= i < v.len() ==> pbv(&(#[trigger] v[i]).file_path) != p,
     }
 }
 pub open spec fn find_post_m(m: Map<Seq<char>, Vec<FixtureDefinition>>, n: Seq<char>, p: PV, o: Option<FixtureDefinition>) -> bool {
-    if m.contains_key(n) { find_post(m[n]@, p, o) } else { o is None }
+    if m.contains_key(n) { find_post(m[n]@.as_ref(), p, o) } else { o is None }
 }
 /// cache hit: re-finding the first definition of the name in the cached file yields a definition of the same
 /// file as the one resolution selects (not necessarily the same definition)
@@ -313,8 +314,203 @@ pub proof fn lemma_cache_hit(m: Map<Seq<char>, Vec<FixtureDefinition>>, provf: s
             let i = choose|i: int| 0 <= i < ds.len() && ds[i] == d;
             assert(m.contains_key(n));
             assert(ds[i] == dv(&m[n]@[i]));
-            assert(pbv(&m[n]@[i].file_path) == pbv(&p));
+            assert(pbv(&m[n]@.as_ref()[i].file_path) == pbv(&p));
         }
         None => {}
+    }
+}
+
+// ---- `fixtures unused` -------------------------------------------------------------------------
+pub open spec fn kv_fn() -> spec_fn((PathBuf, String)) -> CKey { |e: (PathBuf, String)| (pbv(&e.0), e.1@) }
+pub open spec fn keys_of(s: Seq<(PathBuf, String)>) -> Seq<CKey> { s.map_values(kv_fn()) }
+/// the comparison the sort closure computes: by path, then by name
+pub open spec fn key_cmp(a: CKey, b: CKey) -> core::cmp::Ordering {
+    if path_ord(a.0, b.0) is Equal { str_ord(a.1, b.1) } else { path_ord(a.0, b.0) }
+}
+pub open spec fn key_cmp_fn() -> spec_fn(CKey, CKey) -> core::cmp::Ordering { |a: CKey, b: CKey| key_cmp(a, b) }
+pub open spec fn pair_cmp_fn() -> spec_fn((PathBuf, String), (PathBuf, String)) -> core::cmp::Ordering {
+    |a: (PathBuf, String), b: (PathBuf, String)| key_cmp(kv_fn()(a), kv_fn()(b))
+}
+/// how often key occurs in a listing
+pub open spec fn occ(s: Seq<CKey>, k: CKey) -> nat { s.to_multiset().count(k) }
+/// definition d (registered under n) is listed for file f: project fixture, not autouse, count of (f, n) is 0
+pub open spec fn unused_at(defs: Map<Seq<char>, Seq<DefV>>, uses: Map<PV, Seq<UseV>>, provf: spec_fn(Seq<char>) -> spec_fn(PV) -> bool, f: PV, n: Seq<char>) -> spec_fn(DefV) -> bool {
+    |d: DefV| d.file == f && !d.is_third_party && !d.autouse && total_hits(defs, uses, provf, (f, n)) == 0
+}
+/// how often (f, n) must be listed: once per listed definition of n in f
+pub open spec fn unused_target(defs: Map<Seq<char>, Seq<DefV>>, uses: Map<PV, Seq<UseV>>, provf: spec_fn(Seq<char>) -> spec_fn(PV) -> bool, key: CKey) -> nat {
+    cnt(bucket(defs, key.1), unused_at(defs, uses, provf, key.0, key.1))
+}
+/// postcondition of get_unused_fixtures
+pub open spec fn unused_post(r: Seq<(PathBuf, String)>, defs: Map<Seq<char>, Seq<DefV>>, uses: Map<PV, Seq<UseV>>, provf: spec_fn(Seq<char>) -> spec_fn(PV) -> bool) -> bool {
+    &&& sorted_by_cmp(keys_of(r), key_cmp_fn())
+    &&& forall|key: CKey| #[trigger] occ(keys_of(r), key) == unused_target(defs, uses, provf, key)
+}
+
+pub proof fn lemma_occ_push(s: Seq<CKey>, a: CKey, k: CKey)
+    ensures occ(s.push(a), k) == occ(s, k) + (if a == k { 1nat } else { 0nat })
+{
+    s.to_multiset_ensures();
+}
+pub proof fn lemma_occ_empty(k: CKey)
+    ensures occ(Seq::<CKey>::empty(), k) == 0
+{
+    let e = Seq::<CKey>::empty();
+    e.to_multiset_ensures();
+    assert(!e.contains(k));
+}
+/// a permutation stays a permutation under an element-wise view
+pub proof fn lemma_perm_map<A, B>(a: Seq<A>, b: Seq<A>, g: spec_fn(A) -> B)
+    requires a.to_multiset() == b.to_multiset()
+    ensures a.map_values(g).to_multiset() =~= b.map_values(g).to_multiset()
+    decreases a.len()
+{
+    a.to_multiset_ensures(); b.to_multiset_ensures();
+    if a.len() == 0 {
+        assert(b.len() == 0);
+        assert(a.map_values(g) =~= b.map_values(g));
+    } else {
+        let x = a.last(); let a1 = a.drop_last();
+        a1.to_multiset_ensures();
+        assert(a1.push(x) =~= a);
+        assert(a[a.len() - 1] == x);
+        assert(a.contains(x));
+        assert(a.to_multiset().count(x) > 0);
+        assert(b.to_multiset().count(x) > 0);
+        assert(b.contains(x));
+        let i = choose|i: int| 0 <= i < b.len() && b[i] == x;
+        let b1 = b.remove(i);
+        assert(a1.to_multiset() =~= b1.to_multiset());
+        lemma_perm_map(a1, b1, g);
+        let am = a.map_values(g); let bm = b.map_values(g);
+        let a1m = a1.map_values(g); let b1m = b1.map_values(g);
+        a1m.to_multiset_ensures(); bm.to_multiset_ensures();
+        assert(a1m.push(g(x)) =~= am);
+        assert(bm.remove(i) =~= b1m);
+        assert(bm[i] == g(x));
+        assert(bm.contains(g(x)));
+        assert(bm.to_multiset() =~= b1m.to_multiset().insert(g(x)));
+    }
+}
+pub proof fn lemma_pair_cmp_total()
+    ensures cmp_total_preorder(pair_cmp_fn())
+{
+    axiom_path_ord_total(); axiom_str_ord_total();
+    let c = pair_cmp_fn(); let po = path_ord_fn(); let so = str_ord_fn();
+    assert forall|a: (PathBuf, String)| #[trigger] c(a, a) is Equal by {
+        let k = kv_fn()(a); assert(po(k.0, k.0) is Equal); assert(so(k.1, k.1) is Equal);
+    }
+    assert forall|a: (PathBuf, String), b: (PathBuf, String)| (#[trigger] c(a, b) is Less) <==> (c(b, a) is Greater) by {
+        let k = kv_fn()(a); let l = kv_fn()(b);
+        assert((po(k.0, l.0) is Less) <==> (po(l.0, k.0) is Greater));
+        assert((po(l.0, k.0) is Less) <==> (po(k.0, l.0) is Greater));
+        assert((po(k.0, l.0) is Equal) <==> k.0 == l.0);
+        assert((po(l.0, k.0) is Equal) <==> k.0 == l.0);
+        assert((so(k.1, l.1) is Less) <==> (so(l.1, k.1) is Greater));
+    }
+    assert forall|a: (PathBuf, String), b: (PathBuf, String), d: (PathBuf, String)|
+        !(#[trigger] c(a, b) is Greater) && !(#[trigger] c(b, d) is Greater) implies !(c(a, d) is Greater) by {
+        let k = kv_fn()(a); let l = kv_fn()(b); let m = kv_fn()(d);
+        assert(!(po(k.0, l.0) is Greater) && !(po(l.0, m.0) is Greater));
+        assert(!(po(k.0, m.0) is Greater));
+        if po(k.0, m.0) is Equal {
+            assert(k.0 == m.0);
+            assert((po(k.0, l.0) is Less) <==> (po(l.0, k.0) is Greater));
+            assert((po(k.0, l.0) is Equal) <==> k.0 == l.0);
+            assert(k.0 == l.0);
+            assert(po(l.0, m.0) is Equal);
+            assert(!(so(k.1, l.1) is Greater) && !(so(l.1, m.1) is Greater));
+            assert(!(so(k.1, m.1) is Greater));
+        }
+    }
+}
+pub proof fn lemma_sorted_keys(r: Seq<(PathBuf, String)>)
+    requires sorted_by_cmp(r, pair_cmp_fn())
+    ensures sorted_by_cmp(keys_of(r), key_cmp_fn())
+{
+    assert forall|i: int, j: int| 0 <= i < j < keys_of(r).len() implies !(key_cmp_fn()(keys_of(r)[i], keys_of(r)[j]) is Greater) by {
+        assert(!(pair_cmp_fn()(r[i], r[j]) is Greater));
+    }
+}
+
+/// loop invariants of get_unused_fixtures: names in `done` are finished, name nm is finished up to its j-th definition
+#[verifier::opaque]
+pub open spec fn un_outer(ks: Seq<CKey>, defs: Map<Seq<char>, Seq<DefV>>, uses: Map<PV, Seq<UseV>>, provf: spec_fn(Seq<char>) -> spec_fn(PV) -> bool, done: Set<Seq<char>>) -> bool {
+    forall|key: CKey| #[trigger] occ(ks, key) == (if done.contains(key.1) { unused_target(defs, uses, provf, key) } else { 0 })
+}
+#[verifier::opaque]
+pub open spec fn un_inner(ks: Seq<CKey>, defs: Map<Seq<char>, Seq<DefV>>, uses: Map<PV, Seq<UseV>>, provf: spec_fn(Seq<char>) -> spec_fn(PV) -> bool, done: Set<Seq<char>>, nm: Seq<char>, j: int) -> bool {
+    forall|key: CKey| #[trigger] occ(ks, key) == (
+        if key.1 == nm { cnt(bucket(defs, nm).take(j), unused_at(defs, uses, provf, key.0, nm)) }
+        else if done.contains(key.1) { unused_target(defs, uses, provf, key) } else { 0 })
+}
+pub proof fn lemma_un_start(ks: Seq<CKey>, defs: Map<Seq<char>, Seq<DefV>>, uses: Map<PV, Seq<UseV>>, provf: spec_fn(Seq<char>) -> spec_fn(PV) -> bool, done: Set<Seq<char>>, nm: Seq<char>)
+    requires un_outer(ks, defs, uses, provf, done), !done.contains(nm)
+    ensures un_inner(ks, defs, uses, provf, done, nm, 0)
+{
+    reveal(un_outer); reveal(un_inner);
+    assert forall|key: CKey| #[trigger] occ(ks, key) == (
+        if key.1 == nm { cnt(bucket(defs, nm).take(0), unused_at(defs, uses, provf, key.0, nm)) }
+        else if done.contains(key.1) { unused_target(defs, uses, provf, key) } else { 0 }) by {
+        assert(occ(ks, key) == (if done.contains(key.1) { unused_target(defs, uses, provf, key) } else { 0 }));
+        assert(bucket(defs, nm).take(0) =~= Seq::<DefV>::empty());
+    }
+}
+pub proof fn lemma_un_skip(ks: Seq<CKey>, defs: Map<Seq<char>, Seq<DefV>>, uses: Map<PV, Seq<UseV>>, provf: spec_fn(Seq<char>) -> spec_fn(PV) -> bool, done: Set<Seq<char>>, nm: Seq<char>, j: int)
+    requires un_inner(ks, defs, uses, provf, done, nm, j), 0 <= j < bucket(defs, nm).len(),
+        !unused_at(defs, uses, provf, bucket(defs, nm)[j].file, nm)(bucket(defs, nm)[j]),
+    ensures un_inner(ks, defs, uses, provf, done, nm, j + 1)
+{
+    reveal(un_inner);
+    let ds = bucket(defs, nm);
+    assert(ds.take(j + 1) =~= ds.take(j).push(ds[j]));
+    assert forall|key: CKey| #[trigger] occ(ks, key) == (
+        if key.1 == nm { cnt(ds.take(j + 1), unused_at(defs, uses, provf, key.0, nm)) }
+        else if done.contains(key.1) { unused_target(defs, uses, provf, key) } else { 0 }) by {
+        assert(occ(ks, key) == (
+            if key.1 == nm { cnt(ds.take(j), unused_at(defs, uses, provf, key.0, nm)) }
+            else if done.contains(key.1) { unused_target(defs, uses, provf, key) } else { 0 }));
+        lemma_cnt_push(ds.take(j), ds[j], unused_at(defs, uses, provf, key.0, nm));
+    }
+}
+pub proof fn lemma_un_push(ks: Seq<CKey>, defs: Map<Seq<char>, Seq<DefV>>, uses: Map<PV, Seq<UseV>>, provf: spec_fn(Seq<char>) -> spec_fn(PV) -> bool, done: Set<Seq<char>>, nm: Seq<char>, j: int)
+    requires un_inner(ks, defs, uses, provf, done, nm, j), 0 <= j < bucket(defs, nm).len(),
+        unused_at(defs, uses, provf, bucket(defs, nm)[j].file, nm)(bucket(defs, nm)[j]),
+    ensures un_inner(ks.push((bucket(defs, nm)[j].file, nm)), defs, uses, provf, done, nm, j + 1)
+{
+    reveal(un_inner);
+    let ds = bucket(defs, nm);
+    let k0: CKey = (ds[j].file, nm);
+    assert(ds.take(j + 1) =~= ds.take(j).push(ds[j]));
+    assert forall|key: CKey| #[trigger] occ(ks.push(k0), key) == (
+        if key.1 == nm { cnt(ds.take(j + 1), unused_at(defs, uses, provf, key.0, nm)) }
+        else if done.contains(key.1) { unused_target(defs, uses, provf, key) } else { 0 }) by {
+        assert(occ(ks, key) == (
+            if key.1 == nm { cnt(ds.take(j), unused_at(defs, uses, provf, key.0, nm)) }
+            else if done.contains(key.1) { unused_target(defs, uses, provf, key) } else { 0 }));
+        lemma_cnt_push(ds.take(j), ds[j], unused_at(defs, uses, provf, key.0, nm));
+        lemma_occ_push(ks, k0, key);
+    }
+}
+pub proof fn lemma_un_end(ks: Seq<CKey>, defs: Map<Seq<char>, Seq<DefV>>, uses: Map<PV, Seq<UseV>>, provf: spec_fn(Seq<char>) -> spec_fn(PV) -> bool, done: Set<Seq<char>>, nm: Seq<char>)
+    requires un_inner(ks, defs, uses, provf, done, nm, bucket(defs, nm).len() as int)
+    ensures un_outer(ks, defs, uses, provf, done.insert(nm))
+{
+    reveal(un_outer); reveal(un_inner);
+    let ds = bucket(defs, nm);
+    assert(ds.take(ds.len() as int) =~= ds);
+    assert forall|key: CKey| #[trigger] occ(ks, key) == (if done.insert(nm).contains(key.1) { unused_target(defs, uses, provf, key) } else { 0 }) by {
+        assert(occ(ks, key) == (
+            if key.1 == nm { cnt(ds.take(ds.len() as int), unused_at(defs, uses, provf, key.0, nm)) }
+            else if done.contains(key.1) { unused_target(defs, uses, provf, key) } else { 0 }));
+    }
+}
+pub proof fn lemma_un_final(ks: Seq<CKey>, defs: Map<Seq<char>, Seq<DefV>>, uses: Map<PV, Seq<UseV>>, provf: spec_fn(Seq<char>) -> spec_fn(PV) -> bool, done: Set<Seq<char>>)
+    requires un_outer(ks, defs, uses, provf, done), forall|n: Seq<char>| defs.contains_key(n) ==> done.contains(n),
+    ensures forall|key: CKey| #[trigger] occ(ks, key) == unused_target(defs, uses, provf, key)
+{
+    reveal(un_outer);
+    assert forall|key: CKey| #[trigger] occ(ks, key) == unused_target(defs, uses, provf, key) by {
+        assert(occ(ks, key) == (if done.contains(key.1) { unused_target(defs, uses, provf, key) } else { 0 }));
     }
 }
